@@ -103,6 +103,19 @@ Section C01.
           /\ sink_complete hf eqbM k srcs (topic st k) = true).
   Proof. exact (at_least_once_ctx hf eqbM eqbM_spec). Qed.
 
+  (** the acceptors are linked to the model: the model trace the correspondence check compares the
+      implementation with (strict replay of the observed schedule on the guarded model, under any
+      script - in particular the context-aware script [sc_ctx cl sc] of the observed context
+      oracle) passes every monitor that judges the implementation *)
+  Theorem C01_replayed_model_accepted : forall k sc srcs ls st,
+    preplay_imm hf eqbM rt_handle k sc (pinit srcs) ls = Some st ->
+    log_ok hf eqbM (dlog st) = true
+    /\ sink_sound hf eqbM k srcs (topic st k) = true
+    /\ immediate_ok eqbM (dlog st) = true
+    /\ (quiescentb k st = true -> sink_complete hf eqbM k srcs (topic st k) = true
+                                  /\ redelivery_ok eqbM (dlog st) = true).
+  Proof. exact (replayed_model_accepted hf eqbM eqbM_spec). Qed.
+
   (** never lost: at every moment every expected arrival is at the final topic or has a
       pending ancestor at some topic *)
   Theorem C01_never_lost : forall k sc srcs ls,
@@ -358,6 +371,7 @@ Print Assumptions C01_at_least_once_context_aware.
 Print Assumptions C01_delivery_context_is_live.
 Print Assumptions C01_live_contexts_change_nothing.
 Print Assumptions C01_dead_contexts_never_stop.
+Print Assumptions C01_replayed_model_accepted.
 Print Assumptions C01_never_lost.
 Print Assumptions C01_at_least_once.
 Print Assumptions C01_every_source_reaches_the_sink.
